@@ -13,7 +13,7 @@ from yaw.correlation.corrfunc import CorrFunc, davis_peebles, landy_szalay
 from yaw.correlation.paircounts import NormalisedCounts, PatchedSumWeights
 from yaw.redshifts import HistData, RedshiftData
 
-from checks.common import CORR_MODULES, build_counts, conc_binning, mat, normalised, sym_counts, vec
+from checks.common import member_auto, CORR_MODULES, build_counts, conc_binning, mat, normalised, sym_counts, vec
 from vf import runner
 from vf.runner import Check, Harness
 from vf.symx import SB, SV, sarr, symarr
@@ -46,12 +46,12 @@ class Estimator(Harness):
     def make_inputs(self, eng):
         d = {}
         for t in ("dd",) + self.subset:
-            d.update(sym_counts(t, self.B, self.P, self.auto))
+            d.update(sym_counts(t, self.B, self.P, member_auto(t, self.auto)))
         return d
 
     def body(self, inp):
         binning = conc_binning(self.B)
-        kw = {t: build_counts(inp, t, binning, self.auto) for t in ("dd",) + self.subset}
+        kw = {t: build_counts(inp, t, binning, member_auto(t, self.auto)) for t in ("dd",) + self.subset}
         cf = CorrFunc(**kw)
         S = set(self.subset)
         covered = ("rr" in S and "dr" in S) or ("rr" not in S)
@@ -64,7 +64,7 @@ class Estimator(Harness):
             return [Check("uncovered_combination_raises", cond=True)]
         out = []
         for k in [None] + list(range(self.P)):
-            T = {t: vec(lambda b: normalised(inp, t, b, self.auto, k), self.B) for t in ("dd",) + self.subset}
+            T = {t: vec(lambda b: normalised(inp, t, b, member_auto(t, self.auto), k), self.B) for t in ("dd",) + self.subset}
             got = cd.data if k is None else cd.samples[k]
             tag = "data" if k is None else "sample%d" % k
             if "rr" in S:
